@@ -19,12 +19,12 @@ def perform(op):
             impl.pin_clock(1_700_000_000)
             if op.get("cli"):
                 ver = {"v1": "1", "a2": "2", "a3": "3"}[op["kind"]]
-                impl.cli(op.get("flags", []) + ["create", "--prog", "0", "--piece-length",
-                                                str(op["pl"]), "--meta-version", ver,
-                                                "-o", op["out"], op["path"]])
+                plarg = ["--piece-length", str(op["pl"])] if op.get("pl") else []
+                impl.cli(op.get("flags", []) + ["create", "--prog", "0"] + plarg +
+                         ["--meta-version", ver, "-o", op["out"], op["path"]])
                 raw = open(op["out"], "rb").read()
             else:
-                raw = impl.create(op["kind"], op["path"], op["out"], piece_length=op["pl"])
+                raw = impl.create(op["kind"], op["path"], op["out"], piece_length=op.get("pl"))
             return {"raw": raw.hex()}
         if kind == "edit":
             impl.edit(op["meta"], dict(op["req"]))
@@ -56,6 +56,10 @@ def apply_fs(op, base):
     elif k == "grow":
         with open(path, "ab") as fd:
             fd.write(blob_from_token(op["data"]).bytes())
+    elif k == "resize":
+        os.makedirs(os.path.dirname(path), exist_ok=True)
+        with open(path, "ab") as fd:
+            fd.truncate(op["size"])
     elif k == "shrink":
         size = os.path.getsize(path)
         with open(path, "r+b") as fd:
